@@ -19,6 +19,7 @@ pub use replay::replay;
 pub fn run(prop: &str, tier: &str, seed: u64) -> i32 {
     // leaked on purpose: helper threads with a timeout need a 'static reference
     let run: &'static Run = Box::leak(Box::new(Run::new(prop, tier, seed)));
+    *crate::util::PROCESS_INFO.lock().unwrap() = (prop.to_string(), tier.to_string());
     match prop {
         "C01" => c01(run),
         "C02" | "C03" | "C15" => c02_c03_c15(run, prop),
@@ -450,9 +451,11 @@ fn c19(run: &Run) -> i32 {
         v
     };
     let (mut s, mut t) = tt::run(run, &sizes);
+    // 3 MB: a slot count that is not a power of two
     let mut fill_sizes = sizes.clone();
+    fill_sizes.push(3);
     if !run.quick() {
-        fill_sizes.extend([3, 7, 16, 64]);
+        fill_sizes.extend([5, 7, 16, 64]);
     }
     let x = tt::fill_indicator(run, &fill_sizes);
     s += x.0;
